@@ -150,7 +150,9 @@ def run_case(case):
             intdata = bool(rng.random() < 0.2)
             if intdata:
                 # integer coefficients handed over with an integer dtype (next to gradients of any magnitude)
-                J = (rng.integers(-9, 10, size=(m, n)) * (rng.random(size=(m, n)) < dens)).astype(np.int64)
+                idt = [np.int64, np.int32, np.int8][int(rng.integers(0, 3))]
+                J = (rng.integers(-9, 10, size=(m, n)) * (rng.random(size=(m, n)) < dens)).astype(idt)
+                bump("integer_dtype_%s" % np.dtype(idt).name)
                 dup = 0
                 bump("integer_dtype_jacobians")
             if kind == "GradJac":
@@ -194,6 +196,16 @@ def run_case(case):
             if intdata:
                 Hi = rng.integers(-9, 10, size=(n, n)) * (rng.random(size=(n, n)) < dens)
                 H = (np.triu(Hi) + np.triu(Hi, 1).T).astype(np.int64)
+            # how the Hessian is stored: full symmetric, one triangle only (the convention of several NLP codes), or an
+            # unsymmetric approximation -- the statement is about the columns of the matrix that is handed over
+            storage = str(rng.choice(["full", "full", "lower", "upper", "unsym"]))
+            if storage == "lower":
+                H = np.tril(H)
+            elif storage == "upper":
+                H = np.triu(H)
+            elif storage == "unsym" and not intdata:
+                H = Hs
+            bump("kkt_hessian_storage_" + storage)
             try:
                 if via == "direct":
                     sc = Scaling.from_equilibrated_kkt(pack(H, fmt, dup), pack(J, fmt, dup))
@@ -237,14 +249,14 @@ def run_case(case):
 
 def finalize(agg, tier):
     return {
-        "rule": "random nominal vectors, gradients, Jacobians (m<=5, n<=8) and symmetric Hessians with entries "
+        "rule": "random nominal vectors, gradients, Jacobians (m<=5, n<=8) and Hessians (stored as full symmetric matrices, as one triangle only, or unsymmetric) with entries "
                 "+-10^[lo,hi] for six magnitude classes (wide -12..12, all below one, all above one, narrow, tiny, huge), "
                 "densities 1/0.7/0.4, COO/CSR/CSC, scalings obtained directly from the static constructors, from "
                 "create_scaling and from Transformation; non-trivial = the scaling was returned and its weights were "
                 "applied to the data by the ldexp oracle; distinct by (kind, class, route, sizes, index)",
         "floors": {"nominal_values_checked": 1000, "gradjac_rows_checked": 500, "gradjac_rows_all_below_one": 100,
                    "kkt_columns_checked": 1000, "kkt_columns_sum_below_one_before": 100, "kkt_returned": 300,
-                   "integer_dtype_jacobians": 100},
+                   "integer_dtype_jacobians": 100, "kkt_hessian_storage_lower": 60, "kkt_hessian_storage_unsym": 60},
         "assumptions": ["zero values / zero rows / zero columns are excepted as in the statement; "
                         "'Equilibration failed to converge' is counted, not judged ('whenever it returns')"],
     }
